@@ -17,6 +17,7 @@ From Coq Require Import List ZArith Bool Arith.
 Import ListNotations.
 From DD Require Import Base.PyStr Base.Value Path.PathModel Diff.Tree Diff.DiffModel Diff.TextView
   Diff.Spec Diff.DiffEmpty Diff.DiffSpecProofs.
+From DD Require Hash.HashModel.
 
 (* GUARD: the item hash used for set members is injective on scalars.  The real DeepHash is
    not (findings K1, K2): see the two refutations below. *)
@@ -28,6 +29,21 @@ Theorem C03_positional_is_spec :
     = spec_diff udiff ip t1 t2.
 Proof. intros. apply positional_run_is_spec; assumption. Qed.
 Print Assumptions C03_positional_is_spec.
+
+(* the same for the model of the real item hash: DeepHash of a scalar (Hash/HashModel.v
+   [hash_atom], memo-free) over ANY injective hasher H, options other than the mode at their
+   defaults.  The guard becomes a boolean condition on the inputs: every set / frozenset
+   member, at every depth, is [tag_safe_atom] (no str equal to 'NONE' or containing ':'). *)
+Theorem C03_positional_is_spec_deephash :
+  forall H o udiff ops excl d ip t1 t2,
+    (forall s t, H s = H t -> s = t) -> Hash.HashModel.plain o = true ->
+    wf t1 = true -> wf t2 = true ->
+    inputs_ok any_atom Hash.HashModel.tag_safe_atom t1 = true ->
+    inputs_ok any_atom Hash.HashModel.tag_safe_atom t2 = true ->
+    text_view 2 (fst (run_diff (Hash.HashModel.hash_atom H o) udiff ops (fun _ => false) excl (mkCfg true 0 d ip) t1 t2))
+    = spec_diff udiff ip t1 t2.
+Proof. intros. apply positional_run_is_spec_deephash; assumption. Qed.
+Print Assumptions C03_positional_is_spec_deephash.
 
 (* the post-processing pass mutual_add_removes_to_become_value_changes never fires in
    positional mode (every threshold <= 1, any skip / excl / hash) *)
